@@ -529,7 +529,7 @@ def main():
     cfg = json.load(open('%s/props/%s.json' % (V, a.prop)))
     repo = os.environ.get('GOVC_REPO', '/repo')
     out_root = os.environ.get('GOVC_OUT', V + '/out')
-    to = a.timeout or (20 if a.tier == 'quick' else 80)
+    to = a.timeout or (30 if a.tier == 'quick' else 120)
     known_path = a.known or V + '/known_findings.txt'
     known = {}
     if os.path.exists(known_path):
